@@ -693,6 +693,9 @@ func Build(tracks []Track, lay FileLayout) (init []byte, segments [][]byte, trut
 	}
 
 	topSidxAt, topSidxVer := -1, uint8(0)
+	topSidx2At := -1
+	split := lay.TopSidx && lay.TopSidxSplit > 0 && lay.TopSidxSplit < len(lay.Segments)
+	var segEPT []uint64
 	if lay.TopSidx {
 		n0 := 0
 		if len(lay.Segments) > 0 {
@@ -703,9 +706,20 @@ func Build(tracks []Track, lay FileLayout) (init []byte, segments [][]byte, trut
 		}
 		topSidxVer = sidxVersion(b.refOf(0, n0).ept)
 		topSidxAt = w.pos()
-		w.zeros(sidxSize(topSidxVer, len(lay.Segments)))
-		bi := b.top("sidx", topSidxAt, w.pos()-topSidxAt)
-		truth.TopSidx = &bi
+		if split {
+			topSidxVer = 1
+			w.zeros(sidxSize(1, lay.TopSidxSplit))
+			bi := b.top("sidx", topSidxAt, w.pos()-topSidxAt)
+			truth.TopSidx = &bi
+			topSidx2At = w.pos()
+			w.zeros(sidxSize(1, len(lay.Segments)-lay.TopSidxSplit))
+			bi2 := b.top("sidx", topSidx2At, w.pos()-topSidx2At)
+			truth.TopSidx2 = &bi2
+		} else {
+			w.zeros(sidxSize(topSidxVer, len(lay.Segments)))
+			bi := b.top("sidx", topSidxAt, w.pos()-topSidxAt)
+			truth.TopSidx = &bi
+		}
 		if lay.TopSidxGap >= 8 {
 			p := w.open("free")
 			w.zeros(lay.TopSidxGap - 8)
@@ -785,19 +799,30 @@ func Build(tracks []Track, lay FileLayout) (init []byte, segments [][]byte, trut
 		if si == 0 {
 			topEPT = ref.ept
 		}
+		segEPT = append(segEPT, ref.ept)
 		topRefs = append(topRefs, sidxRefData{size: uint32(st.Size), dur: uint32(ref.dur)})
 		truth.Segments = append(truth.Segments, st)
 		segEnds = append(segEnds, w.pos())
 	}
 	if lay.TopSidx {
-		if sidxVersion(topEPT) != topSidxVer && len(lay.Segments) > 0 {
+		if !split && sidxVersion(topEPT) != topSidxVer && len(lay.Segments) > 0 {
 			return nil, nil, nil, fmt.Errorf("fragbuild: internal: top sidx version changed")
 		}
 		gap := uint64(0)
 		if lay.TopSidxGap >= 8 {
 			gap = uint64(lay.TopSidxGap)
 		}
-		writeSidxFO(w.b[topSidxAt:], topSidxVer, tracks[0].ID, tracks[0].Timescale, topEPT, gap, topRefs)
+		if split {
+			k := lay.TopSidxSplit
+			var skipped uint64
+			for _, r := range topRefs[:k] {
+				skipped += uint64(r.size)
+			}
+			writeSidxFO(w.b[topSidxAt:], 1, tracks[0].ID, tracks[0].Timescale, topEPT, gap+truth.TopSidx2.Size, topRefs[:k])
+			writeSidxFO(w.b[topSidx2At:], 1, tracks[0].ID, tracks[0].Timescale, segEPT[k], gap+skipped, topRefs[k:])
+		} else {
+			writeSidxFO(w.b[topSidxAt:], topSidxVer, tracks[0].ID, tracks[0].Timescale, topEPT, gap, topRefs)
+		}
 	}
 	mediaEnd := w.pos()
 
